@@ -14,7 +14,7 @@ FACTS = os.path.join(LEAN, "Gopki", "Generated", "Facts.lean")
 NCPU = min(16, os.cpu_count() or 4)
 
 GOENV = dict(os.environ, GOFLAGS="-mod=mod", GOPROXY="off", GOSUMDB="off", GOTOOLCHAIN="local",
-             CGO_ENABLED="0", VERIF_CORPUS=os.path.join(VERIF, "corpus"))
+             CGO_ENABLED="0", VERIF_CORPUS=os.path.join(VERIF, "corpus"), VERIF_GOPKI=os.path.join(BUILD, "gopki"))
 
 
 def log(*a):
@@ -53,7 +53,12 @@ def build_harness():
     if os.path.exists(HARNESS):
         os.remove(HARNESS)            # never run a stale binary
     rc, out = run(["go", "build", "-tags", "verif", "-o", HARNESS, "."], cwd=HARNESS_SRC, env=GOENV, timeout=600)
-    return rc == 0 and os.path.exists(HARNESS), out
+    # the command-line binary itself (no build tag), for the `cli` operation
+    gopki = os.path.join(BUILD, "gopki")
+    if os.path.exists(gopki):
+        os.remove(gopki)
+    rc2, out2 = run(["go", "build", "-o", gopki, "."], cwd=REPO, env=GOENV, timeout=600)
+    return rc == 0 and os.path.exists(HARNESS) and rc2 == 0 and os.path.exists(gopki), out + out2
 
 
 def regen_facts():
@@ -343,6 +348,13 @@ def main(argv):
                     bad = [a for a in ax if a not in ALLOWED_AXIOMS]
                     if bad:
                         unproved.append({"what": f"theorem {t} depends on non-standard axioms {bad}", "output": ""})
+        if lok and tier == "thorough":
+            # independent re-check of the compiled modules of this property (and everything they import)
+            mods = [m for m in spec["modules"] if m.startswith("Gopki.")]
+            rc_c, cout = run(["lake", "env", "leanchecker"] + mods, cwd=LEAN, timeout=3600)
+            build_notes.append(f"leanchecker {' '.join(mods)}: exit {rc_c}")
+            if rc_c != 0:
+                unproved.append({"what": "leanchecker (independent re-check of the compiled proofs) rejects a module of this property", "output": cout[-3000:]})
         if spec.get("sites") and ok:
             rc_s, sites_out = run([HARNESS, "sites"], env=GOENV, timeout=120)
             expected = json.load(open(os.path.join(VERIF, "panic_sites.expected.json")))
@@ -454,6 +466,8 @@ def main(argv):
         "exhaustive_note": spec.get("exhaustive_note", ""),
         "explanation": spec.get("explanation", ""),
     }
+    if build_notes:
+        cov["independent_recheck"] = build_notes
     if site_info:
         cov["panic_site_inventory"] = site_info
     write_evidence(prop, tier, seed, spec, cov, spec.get("assumptions", []), wall, violations)
